@@ -4179,3 +4179,132 @@ func runDEDUP(c *Ctx, r *Result, rule string, fns []*ssa.Function) int {
 	}
 	return n
 }
+
+// ---------------------------------------------------------------------------------------
+// AMPM (C19): the am/pm marker is "pm" exactly for the hours 12..23.
+//
+// In the function dispatched for the am/pm component, the value that reaches the name formatter
+// is a choice between the language's am and pm names. Interval proof at each arm of the choice:
+// where the pm names are chosen the hour of the day (time.Time.Hour of the function's time
+// argument) is shown >= 12, where the am names are chosen it is shown <= 11. A flag computed by a
+// 12-hour helper that says pm only for hours above 12 makes noon "am".
+// ---------------------------------------------------------------------------------------
+
+func runAMPM(c *Ctx, r *Result, rule string) int {
+	exp := c.mustFn(r, "jxpath.expandDateComponent")
+	if exp == nil {
+		return 0
+	}
+	var kP int64 = -1
+	if k, ok := exp.Pkg.Pkg.Scope().Lookup("dateAMPM").(*types.Const); ok {
+		kP, _ = constant.Int64Val(k.Val())
+	}
+	if kP < 0 {
+		r.LoseAnchor("AMPM: constant dateAMPM not found")
+		return 0
+	}
+	var fP *ssa.Function
+	for _, b := range exp.Blocks {
+		ks, ok := caseConstsOf(b, func(v ssa.Value) bool { return true })
+		if !ok {
+			continue
+		}
+		is := false
+		for _, k := range ks {
+			if k == kP {
+				is = true
+			}
+		}
+		if !is {
+			continue
+		}
+		for _, ins := range b.Instrs {
+			if call, ok := ins.(*ssa.Call); ok {
+				if g := call.Call.StaticCallee(); g != nil && g.Pkg == exp.Pkg {
+					fP = g
+				}
+			}
+		}
+	}
+	if fP == nil {
+		r.LoseAnchor("AMPM: the formatter of the am/pm component was not found in expandDateComponent")
+		return 0
+	}
+	bndCtx = c
+	// the hour of the day in fP
+	var hour ssa.Value
+	for _, ci := range callsIn(fP) {
+		if g := ci.Common().StaticCallee(); g != nil && g.String() == "(time.Time).Hour" {
+			if v, ok := ci.(*ssa.Call); ok {
+				hour = v
+			}
+		}
+	}
+	fieldOf := func(v ssa.Value) string {
+		ld, ok := v.(*ssa.UnOp)
+		if !ok || ld.Op != token.MUL {
+			return ""
+		}
+		fa, ok := ld.X.(*ssa.FieldAddr)
+		if !ok {
+			return ""
+		}
+		st, ok := deref(fa.X.Type()).Underlying().(*types.Struct)
+		if !ok {
+			return ""
+		}
+		return st.Field(fa.Field).Name()
+	}
+	n := 0
+	for _, ins := range instrsIn(fP) {
+		phi, ok := ins.(*ssa.Phi)
+		if !ok {
+			continue
+		}
+		arms := map[string][]int{}
+		for i, e := range phi.Edges {
+			if fn := fieldOf(e); fn == "am" || fn == "pm" {
+				arms[fn] = append(arms[fn], i)
+			}
+		}
+		if len(arms["am"]) == 0 || len(arms["pm"]) == 0 {
+			continue
+		}
+		for _, which := range []string{"am", "pm"} {
+			for _, i := range arms[which] {
+				n++
+				pr := phi.Block().Preds[i]
+				o := Obligation{Rule: rule, Key: fmt.Sprintf("%s:%s-arm#%d", shortFn(fP), which, len(arms[which])), Fn: shortFn(fP), Pos: c.W.Pos(phi.Edges[i].Pos()), Nontrivial: true}
+				if hour == nil {
+					o.Verdict, o.Reason = Undecided, "the function does not read time.Time.Hour itself: how it decides between am and pm is not followed"
+					r.Add(o)
+					continue
+				}
+				// the arm is the edge pr -> phi.Block(): facts of the branch that governs it
+				p := newBndProver(c, pr.Instrs[len(pr.Instrs)-1], 0)
+				if to := phi.Block(); len(pr.Succs) == 2 {
+					p.edgeFacts(pr, to)
+				}
+				h := bnorm(hour)
+				okArm := false
+				if which == "pm" {
+					okArm = p.prove(blin{c: 12}, h)
+				} else {
+					okArm = p.prove(h, blin{c: 11})
+				}
+				switch {
+				case okArm && which == "pm":
+					o.Verdict, o.Reason = Discharged, "where the pm names are chosen the hour of the day is shown to be at least 12"
+				case okArm:
+					o.Verdict, o.Reason = Discharged, "where the am names are chosen the hour of the day is shown to be at most 11"
+				case which == "pm":
+					o.Verdict, o.Reason = Finding, "where the pm names are chosen the hour of the day is not shown to be at least 12"
+				default:
+					o.Verdict, o.Reason = Finding, "where the am names are chosen the hour of the day is not shown to be at most 11 (a flag that is true only above 12 shows noon as am)"
+				}
+				r.Add(o)
+			}
+		}
+	}
+	return n
+}
